@@ -16,7 +16,15 @@ ALL = [f"C{n:02d}" for n in range(1, 21)]
 PREFIX = {"mux_": "C04,C05", "mm_": "C02,C03,C18", "arb_": "C08,C09", "wbdec_": "C07", "br_": "C10",
           "sram_": "C15", "evm_": "C13,C14", "csrevm_": "C14", "reg_": "C11", "act_": "C12",
           "gpio_": "C16", "bld_": "C17", "csrdec_": "C06", "soc_": "C01",
-          "regress_F4": "C14,C20", "regress_F10": "C20", "regress_F": "C19"}
+          "regress_F4": "C14,C20", "regress_F10": "C20", "regress_F": "C19",
+          # behaviour-preserving refactorings written by sub-agents, one source file each: every
+          # check whose world builds on that file
+          "agent_memory": "C02,C03,C18,C17,C06,C07,C01,C19",
+          "agent_csrbus": "C04,C05,C06,C01,C14,C16,C10,C19,C20",
+          "agent_csrreg": "C11,C12,C17,C01,C16,C19,C20", "agent_csraction": "C12,C16,C19",
+          "agent_csrevent": "C14,C01,C19,C20", "agent_event": "C13,C14,C01,C19,C20",
+          "agent_csrwb": "C10,C01,C19,C20", "agent_wbbus": "C07,C08,C09,C01,C19,C20",
+          "agent_wbsram": "C15,C01,C19,C20", "agent_gpio": "C16,C01,C19,C20"}
 
 
 def props_for(name):
